@@ -528,6 +528,12 @@ class SimFS(AbstractFileSystem):
                 raise FileNotFoundError(errno.ENOENT, "No such directory", os.path.dirname(p))
             if st.open_writes.get(p):
                 st.conflicts.append(("two-writers", st.rel(p)))
+            if getattr(self, "_intrans", False):
+                # fsspec transaction (state of the filesystem OBJECT, as in every fsspec
+                # implementation): the file becomes visible at commit, or never
+                f = SimWriteFile(self, p, append=("a" in mode), deferred=True)
+                self.transaction.files.append(f)
+                return f
             return SimWriteFile(self, p, append=("a" in mode))
         return self._op("open-w", p, dow)
 
@@ -584,7 +590,7 @@ class SimReadFile(io.RawIOBase):
 class SimWriteFile(io.RawIOBase):
     """Write handle: every write and the close are storage operations."""
 
-    def __init__(self, fs, path, append=False):
+    def __init__(self, fs, path, append=False, deferred=False):
         super().__init__()
         self.fs = fs
         self.st = fs.store
@@ -592,9 +598,11 @@ class SimWriteFile(io.RawIOBase):
         self.mode = "ab" if append else "wb"
         self._pos = 0
         self._broken = False
+        self._deferred = deferred
+        self._pending = None
         st = self.st
         st.open_writes[path] = st.open_writes.get(path, 0) + 1
-        if st.atomic_close:
+        if st.atomic_close or deferred:
             self._buf = io.BytesIO()
             if append and os.path.exists(path):
                 with open(path, "rb") as f:
@@ -647,8 +655,11 @@ class SimWriteFile(io.RawIOBase):
         if self._f is not None:
             self._f.close()
         elif commit and not self._broken:
-            with open(self.path, "wb") as f:
-                f.write(self._buf.getvalue())
+            if self._deferred:
+                self._pending = self._buf.getvalue()     # visible only after commit()
+            else:
+                with open(self.path, "wb") as f:
+                    f.write(self._buf.getvalue())
         st.open_writes[self.path] -= 1
         if st.open_writes[self.path] <= 0:
             del st.open_writes[self.path]
@@ -678,6 +689,20 @@ class SimWriteFile(io.RawIOBase):
                     self._finish(False)
         finally:
             super().close()
+
+    # fsspec transaction protocol (fsspec.transaction.Transaction.complete)
+    def commit(self):
+        data, self._pending = self._pending, None
+        if data is None:
+            return
+
+        def do():
+            with open(self.path, "wb") as f:
+                f.write(data)
+        self.fs._op("close", self.path, do, default_cost=0.5)
+
+    def discard(self):
+        self._pending = None
 
     def __del__(self):
         # never let the garbage collector perform a storage operation
